@@ -331,6 +331,10 @@ func c02Bubble(tp *core.Tape, e *core.Env) {
 					if t.Labels().Len() == 0 {
 						continue
 					}
+					if t.URL().Scheme != "http" {
+						e.Violate("shard-target-not-plain-http", "", "the generated configuration makes the shard's Prometheus request %s: with the injected proxy_url a non-http scheme is a CONNECT tunnel, which the sidecar proxy does not serve", t.URL())
+						continue
+					}
 					before := tg.Count()
 					rr := httptest.NewRecorder()
 					sc.Scrape(rr, t.URL().String())
